@@ -370,7 +370,7 @@ def _corr_clock(ctx, E, cap):
                  f'{qmat([[Fraction(x) for x in r] for r in t["a_im"]])} {qvec([Fraction(x) for x in t["b_ex"]])} '
                  f'{qvec([Fraction(x) for x in t["b_im"]])}')
     checks.append(('exact+stages', 'tabAdv[imex_rk_sil3, float table]', dict(scheme='sil3'), (ex, len(t['b_ex']))))
-  # random coefficient lists (incl. inconsistent lengths: the model loop then stops early exactly like the recursion)
+  # random coefficient lists of consistent lengths
   for i in range(ctx.n(12, 60)):
     s = int(rng.integers(1, 6))
     q = lambda: Fraction(int(rng.integers(-8, 9)), int(rng.choice([1, 2, 3, 4, 8])))
@@ -398,6 +398,26 @@ def _corr_clock(ctx, E, cap):
     lines.append(f'inv Q tabadv {qmat(a_ex)} {qmat(a_im)} {qvec(b_ex)} {qvec(b_im)}')
     checks.append(('exact+stages', 'tabAdv[random]', inp, (sum(x for x in b_ex if x), s)))
     ctx.dist[f'clock-tab-stages={s}'] += 1
+  # sentinel on the real code: every named integrator advances the clock problem by exactly one dt (to 1e-12)
+  for name, mk in E.INT.items():
+    for dt in (1.0, 0.01, float(rng.uniform(1e-3, 10.0))):
+      inp = dict(integrator=name, dt=dt, problem='du/dt = 1 (explicit), 0 (implicit), G_inv = id')
+      with ctx.impl(f'probe:clock:{name}:raises', inp):
+        t0 = float(rng.uniform(-5, 50))
+        t1 = float(mk(eqn, dt)(jnp.asarray(t0)))
+        ctx.case(('clock', name, dt, ctx.seed), nontrivial=True)
+        ctx.expect(abs(t1 - (t0 + dt)) <= TIME_TOL * (abs(t0) + abs(dt)), f'probe:clock:{name}',
+                   f'one step of {name} advances a clock from {t0!r} to {t1!r}, expected {t0 + dt!r}', inp)
+  for dt in (1.0, 0.01):
+    for alpha in (0.5, 1.0):
+      inp = dict(integrator='leapfrog', dt=dt, alpha=alpha)
+      with ctx.impl('probe:clock:leapfrog:raises', inp):
+        t0 = float(rng.uniform(-5, 50))
+        cur, fut = ti.semi_implicit_leapfrog(eqn, dt, alpha)((jnp.asarray(t0 - dt), jnp.asarray(t0)))
+        ctx.case(('clock', 'leapfrog', dt, alpha, ctx.seed), nontrivial=True)
+        ctx.expect(float(cur) == t0 and abs(float(fut) - (t0 + dt)) <= TIME_TOL * (abs(t0) + abs(dt)),
+                   'probe:clock:leapfrog', f'leapfrog maps clocks ({t0 - dt!r}, {t0!r}) to ({float(cur)!r}, {float(fut)!r})',
+                   inp)
   outs = ctx.model(lines)
   for (kind, op, inp, impl), o in zip(checks, outs):
     ctx.case((op, repr(inp), ctx.seed), nontrivial=True, sample=dict(op=op, **inp) if len(ctx.samples) < 3 else None)
@@ -745,7 +765,7 @@ def _corr_sw(ctx, E):
       filters, ftok = _filters(E, grid, dt, stack, True, params)
       J = jnp.asarray
       s0 = E.sw.State(J(z), J(d), J(p))
-      s1 = E.sw.State(J(z * 1.01), J(d * 0.99), J(p + 0.01 * (p - p[:, :1, :1])))
+      s1 = E.sw.State(J(z * 1.01), J(d * 0.99), J(p * 1.01))
       step = ti.step_with_filters(ti.semi_implicit_leapfrog(eq, dt, alpha), filters)
       u, traj = (s0, s1), []
       for _ in range(k):
@@ -842,8 +862,10 @@ def _probes(ctx, E, cap, divuv_ok):
     keep = _keep(grid)
     leap = name == 'leapfrog'
     uniform = float(rng.uniform(0.2, 3.0)) if c['admissible'] else None
-    eq, coords, specs, tref, oro, kw, info = _pe_setup(ctx, E, grid, c['layers'], cls, c['admissible'], uniform,
-                                                        amp=float(rng.choice([0.3, 1.0])), lkind=None)
+    eq, coords, specs, tref, oro, kw, info = _pe_setup(
+        ctx, E, grid, c['layers'], cls, c['admissible'], uniform, amp=float(rng.choice([0.3, 1.0])),
+        lkind=str(rng.choice(['uneven', 'uneven', 'refined-bottom', 'equidistant'] +
+                             ([] if ctx.quick else ['strongly-uneven']))))
     dt = float(rng.choice([0.005, 0.01, 1 / 128]))
     t0 = float(rng.choice([0.0, rng.uniform(0.5, 50.0)]))
     alpha = float(rng.choice([0.5, 0.6, 1.0]))
